@@ -647,7 +647,7 @@ class AttackGraph():
                 f'with id:{node_id}:\n' \
                 + json.dumps(node.to_dict(), indent = 2))
 
-        if node.id in self._id_to_node:
+        if node.id in self._id_to_node or node_id in self._id_to_node:
             raise ValueError(f'Node index {node_id} already in use.')
 
         node.id = node_id if node_id is not None else self.next_node_id
